@@ -34,6 +34,7 @@ from ..model import APK, AnalysisError, norm, walk_no_nested, dotted
 from .. import regexlang as RL
 
 REFERENCE = r"classes[0-9]*\.dex"
+OWN_MUTATION_ADEQUACY = True  # the thorough tier runs its own in-memory mutants
 REGIONS = {0: "language", 1: "trailing-newline", 2: "unicode-digit"}
 WRAPPERS_SAME = ("list", "tuple", "sorted", "iter")
 
@@ -206,6 +207,8 @@ class Names:
         # derived from self.get_dex_names() plus `extra` further filters
         self.base_dex = bool(base.base_dex) if base is not None else False
         self.extra = (list(base.extra) if base is not None else []) + list(extra)
+        # filter predicates that are not regex tests (cannot be turned into a language)
+        self.opaque = list(base.opaque) if base is not None else []
 
     def conj(self):
         return RL.Conj(self.accs)
@@ -240,7 +243,12 @@ def iter_lang(e, fn, world, depth=0):
             pred, it = e.args
             base = iter_lang(it, fn, world, depth + 1)
             if isinstance(pred, ast.Lambda) and len(pred.args.args) == 1:
-                new = _test_lang(pred.body, pred.args.args[0].arg, fn)
+                try:
+                    new = _test_lang(pred.body, pred.args.args[0].arg, fn)
+                except AnalysisError:
+                    n = Names(base.accs, base.dropped, base)
+                    n.opaque.append(pred.body)
+                    return n
                 return Names(base.accs + new, base.dropped, base, new)
             acc = _bound_regex_method(pred, fn)
             if acc is not None:
@@ -252,12 +260,16 @@ def iter_lang(e, fn, world, depth=0):
         g = e.generators[0]
         var = g.target.id
         base = iter_lang(g.iter, fn, world, depth + 1)
-        new = []
+        new, opaque = [], []
         for c in g.ifs:
-            new += _test_lang(c, var, fn)
+            try:
+                new += _test_lang(c, var, fn)
+            except AnalysisError:
+                opaque.append(c)
         if not _identity_elt(base):
             _err("%s: nested comprehension does not produce names" % fn.qualname)
         n = Names(base.accs + new, base.dropped, base, new)
+        n.opaque += opaque
         n.elt = e.elt
         n.var = var
         return n
@@ -307,6 +319,8 @@ def _region(cls):
 def check_language(sink, fn, names, what, node):
     """compare the selected-name language with the reference, per region"""
     ref, uni = _reference()
+    if names.opaque:
+        _err("%s: filter predicate %s is outside the analysable fragment (not a regex test on the name)" % (fn.qualname, norm(names.opaque[0])))
     sink.count("name_set_sites")
     if names.base_dex and not names.extra and names.dropped is None and not fn.qualname.endswith(".get_dex_names"):
         sink.check("dex-regex/shared", "%s: %s" % (fn.qualname, what), True, fn.qualname, "self.get_dex_names()", "",
@@ -563,8 +577,8 @@ def check_get_files(sink, world):
     names = iter_lang(e, fn, world)
     if getattr(world, "uses_get_files_in_get_files", False):
         _err("get_files is recursive")
-    ok = not names.accs and names.dropped is None and _identity_elt(names)
-    what = names.dropped if names.dropped is not None else (names.conj().label() if names.accs else e)
+    ok = not names.accs and not names.opaque and names.dropped is None and _identity_elt(names)
+    what = names.dropped if names.dropped is not None else (names.opaque[0] if names.opaque else (names.conj().label() if names.accs else e))
     sink.check("get_files/unfiltered", "get_files returns zip.namelist() unfiltered", ok, fn.qualname, what,
                "get_files does not return every archive entry name: %s" % norm(what), node=e,
                detail="return value is self.zip.namelist() with no filter")
@@ -653,14 +667,11 @@ def run(ctx):
 # thorough tier: in-memory mutation adequacy
 # ---------------------------------------------------------------------------
 def _clone(nodes):
-    """deep copy of the function nodes that does not follow the `_parent` link out of each function"""
+    """fresh copies of the function nodes.  (copy.deepcopy would follow `_parent` -- which model.Module also sets on the
+    shared ast.Load() singleton -- into the whole module tree, so the copy goes through unparse/parse instead.)"""
     out = {}
     for k, v in nodes.items():
-        if k == "__init__":
-            out[k] = v  # never mutated
-            continue
-        par = getattr(v, "_parent", None)
-        out[k] = copy.deepcopy(v, {id(par): par}) if par is not None else copy.deepcopy(v)
+        out[k] = v if k == "__init__" else ast.parse(ast.unparse(v)).body[0]
     return out
 
 
